@@ -105,3 +105,25 @@ def units(prop, tier):
         + [pyvc_unit(prop, 'rand.shuffle.n%d.%s' % (n, rf), functools.partial(shuffle_registry, rf, n), [SR + '.shuffle'])
            for n in sizes for rf in ('tape', 'none')] \
         + lemma_units(prop, 'rand.', registry)
+
+
+# ----------------------------------------------------------------------------------------------------------------------
+# NOT PROVED: StrongRandom.sample: it emulates a set with a dict keyed by the random index (`r in selected`, `selected[r] = 1`):
+#   dictionaries with SYMBOLIC keys are outside the PYVC dict abstraction (constant keys only).  Distinctness of the sample
+#   follows from the inner rejection loop `while r is None or r in selected`, which is what a proof would use.
+# NOT PROVED: termination of the rejection loops (probabilistic; never claimed).  shuffle is proved per list length (quick: 4;
+#   thorough: 2..6) for pairwise distinct labels.
+# OBSERVATION (reported as F2, domain restricted as instructed): randrange refuses every negative step with
+#   ValueError('Non positive values') although range(start, stop, step) may be non-empty (randrange(10, 0, -1)).
+#
+# Vacuity / strength check (tools/mut.py C18 lib/Crypto/Random/random.py, exit 1; obligation that caught it):
+#  getrandbits: mask (1 << k) - 1 -> (1 << k)              -> getrandbits.ensures.value, range
+#  getrandbits: one extra byte read                          -> getrandbits.ensures.reads, value
+#  randrange: `while r > num_choices`                        -> randrange.ensures.in_range, candidate
+#  randrange: `getrandbits(...) % num_choices` (modulo bias) -> randrange.loop_inv_entry/preserved (r == candidate)
+#  randrange: `+ 1` on the result                            -> randrange.ensures.in_range, candidate
+#  randint: randrange(a, b)                                  -> randint.raises_iff.ValueError.only_if, ensures.candidate
+#  choice: randrange(len(seq) + 1)                           -> choice.raises_iff.IndexError.only_if, ensures.element
+#  shuffle: randrange(0, i+2)                                -> shuffle.raises_only.IndexError
+#  shuffle: `x[i] = x[j]` instead of the exchange            -> shuffle.ensures.permutation
+#  randrange: locals r renamed                               -> exit 2 (the invariant names the loop-carried local)
